@@ -337,7 +337,11 @@ def specialise(term, cond_key, truth):
         k = c.key()
         if k == cond_key:
             return truth
+        if k in ("True", "False"):
+            return k == "True"
         a = c.as_atom()
+        if a and a[0] in ("eq", "ne") and len(a) == 3 and a[1].as_atom() and a[2].as_atom() and a[1].as_atom()[0] == "str" and a[2].as_atom()[0] == "str":
+            return (a[1].as_atom()[1] == a[2].as_atom()[1]) == (a[0] == "eq")
         if a and a[0] == "not":
             v = value_of(a[1])
             return None if v is None else (not v)
